@@ -27,4 +27,4 @@ PY
   echo "$id$res"
 }
 export -f one
-ls seeded | grep "^C" | xargs -P $P -I{} bash -c 'one {}'
+ls seeded | grep "^C" | grep -E "${FILTER:-.}" | xargs -P $P -I{} bash -c 'one {}'
